@@ -3,6 +3,7 @@ package main
 // The SSA interpreter: one VM = one path (re-execution under a decision prefix).
 
 import (
+	"os"
 	"fmt"
 	"go/token"
 	"go/types"
@@ -275,6 +276,21 @@ func (vm *VM) obligation(c *Term, kind, label string) {
 			return
 		}
 		m = mm
+		if os.Getenv("SYMGO_DEBUGCEX") != "" {
+			vm.ts.NewEvalEpoch()
+			fmt.Fprintf(os.Stderr, "DEBUGCEX label=%s eval(assert)=%d under solver model; pc entries violated:", label, vm.ts.Eval(c, m))
+			for i, p := range vm.pc {
+				if vm.ts.Eval(p, m) != 1 {
+					fmt.Fprintf(os.Stderr, " #%d", i)
+				}
+			}
+			fmt.Fprintln(os.Stderr)
+			fmt.Fprint(os.Stderr, "DEBUGCEX observed:")
+			for _, o := range vm.observed {
+				fmt.Fprintf(os.Stderr, " %d", vm.ts.Eval(o, m))
+			}
+			fmt.Fprintln(os.Stderr)
+		}
 	}
 	vm.fail(kind, label, m)
 }
@@ -310,7 +326,21 @@ func shortFile(f string) string {
 	return f
 }
 
+var concreteTape []uint64 // development aid: run the VM on fixed input values
+
 func (vm *VM) newInput(w uint8, name string) *Term {
+	if concreteTape != nil {
+		i := len(vm.inputs)
+		vm.inputs = append(vm.inputs, vm.ts.Var(w, i, name))
+		var v uint64
+		if i < len(concreteTape) {
+			v = concreteTape[i]
+		}
+		if w == 0 {
+			return vm.ts.Bool(v&1 == 1)
+		}
+		return vm.ts.BV(w, v)
+	}
 	t := vm.ts.Var(w, len(vm.inputs), fmt.Sprintf("%s#%d", name, len(vm.inputs)))
 	vm.inputs = append(vm.inputs, t)
 	return t
